@@ -23,7 +23,7 @@ DIMS = OrderedDict([
     ("nv", [6, 4, 12]),
     ("shape", [[2, 1], [1, 2], [3, 2], [8, 10]]),
     ("lattice", ["none", "power", "tab", "nlc"]),
-    ("system", [None] + synth.SYSTEMS),
+    ("system", [None] + synth.SYSTEMS + ["table:orthorhombic", "table:cubic", "table:hexagonal", "table:monoclinic"]),   # table:<s>: NO system requested, all 21 columns tabulated with the symmetry of <s> (explicit all-zero columns)
     ("compset", ["minimal", "nonzero", "full21"]),
     ("static", ["cubicfit", "generic"]),
     ("grid", ["g0", "g1", "g2", "g3", "g4", "g5"]),
@@ -32,12 +32,14 @@ DIMS = OrderedDict([
     ("nm", [1, 2, 4]),                          # formula units per cell (header field of the phonon file)      # row order of the static table (lattice rows move with their volumes)
     ("weights", ["increasing", "equal", "scaled", "int"]),
     ("poly_degree", [2, 1]),
+    ("lheader", [" lattice_a lattice_b lattice_c", "LATTICE_A LATTICE_B LATTICE_C", "a b c", "# lattice parameters (bohr)"]),   # one-line header of the lattice block
 ])
 
 
 def spec_of(case):
     s = {k: case[k] for k in ("nv", "lattice", "system", "compset", "static", "weights", "poly_degree")}
     s["nm"] = case.get("nm", 1)
+    s["declare"] = case.get("declare", True)
     s["nq"], s["na"] = case["shape"]
     s["qha"] = dict(GRIDS[case["grid"]])
     s["interpolator"], s["order"] = case.get("interpolator", "lsq_poly"), case.get("order", 3)
@@ -75,7 +77,8 @@ def run_case(case):
     with K.scratch() as d, K.scratch() as elsewhere:
         nvr = spec["nv"]
         rows = {"given": None, "reversed": list(range(nvr))[::-1], "rotated": list(range(2, nvr)) + [0, 1]}[case.get("rows", "given")]
-        ds, st = synth.write(d, spec, rows=rows)
+        skw = {"lattice_header": case["lheader"]} if case.get("lheader") else {}
+        ds, st = synth.write(d, spec, rows=rows, **skw)
         if case.get("cwd") == "decoy-inputs":
             # the process runs in a directory that holds same-named files of ANOTHER data set; the settings file is
             # addressed by absolute path, so the inputs next to it are the ones that must be read
@@ -90,7 +93,7 @@ def run_case(case):
         except Exception as ex:
             return {"viol": [V(f"c05:raises:{type(ex).__name__}", f"Calculator on a well-formed data set raised {K.fmt_exc(ex)}")], "outcome": "raises"}
         try:
-            ref = P.Pipeline(d, repo_root(), laws=ds["laws"], fill=K.system_fill(ds["system"]))
+            ref = P.Pipeline(d, repo_root(), laws=ds["laws"], fill=K.system_fill(ds["system"] if spec["declare"] else None))
         except Exception as ex:
             raise HarnessError(f"reference pipeline failed: {ex!r}")
         # wiring of the QHA layer: the same grid, pressures and heat capacity, bit for bit
@@ -117,7 +120,7 @@ def run_case(case):
         if case.get("meta") and not viol:
             # phonon part independent of the tabulated static values: scale the table by 1.37
             with K.scratch() as d2:
-                synth.write(d2, spec, ds=ds, scale=1.37, rows=rows)
+                synth.write(d2, spec, ds=ds, scale=1.37, rows=rows, **skw)
                 c2 = Calculator(os.path.join(d2, "settings.yaml"))
                 for p in mods:
                     ph1 = numpy.asarray(iso[byp[p]]) - mods[p][4]
@@ -210,15 +213,21 @@ def fresh_observation(d, sname, vname=None, fresh_file=None):
 
 def canon(case):
     c = dict(case)
+    c["declare"] = True
+    if str(c["system"]).startswith("table:"):
+        c["system"], c["declare"] = c["system"][6:], False
+        c["compset"] = "full21" if c["compset"] != "nonzero" else "nonzero"   # without a requested system only a complete tensor is well-formed
     if c["system"] in (None, "triclinic"):
         if c["compset"] == "nonzero":
             c["compset"] = "full21"
+    if c["lattice"] == "none":
+        c["lheader"] = DIMS["lheader"][0]
     return c
 
 
 def explore(ctx):
     ctx.rule = ("mode A: BFS over the deviation lattice of data-set and configuration alphabets (volumes, shape, lattice block, "
-                "10 system settings, component set, static-table kind, 6 grids incl. QHA fit order 4 and 5, working directory with decoy "
+                "10 system settings (declared, or only built into the table: explicit all-zero columns without a requested system), 4 spellings of the lattice block's header line, component set, static-table kind, 6 grids incl. QHA fit order 4 and 5, working directory with decoy "
                 "same-named inputs, weights, spectrum degree); every configuration is a "
                 "real Calculator run on generated files compared with pipeline_ref (own parsers, own V*c fit, own strain rule, own "
                 "qha instance, sam_ref); level-<=1 configurations also re-run with the static table scaled by 1.37; mode B: all ordered pairs "
